@@ -252,6 +252,10 @@ func runC03(c c03Case) Verdict {
 				case 's':
 					storer.SetStringValue(st.Var, v.S)
 				}
+			case "host-clear":
+				// the host empties its storer (a new game): every variable is unknown again, and free to take any type
+				m.store = map[string]mval{}
+				storer.Clear()
 			case "host-read":
 				got, ok := storer.GetValue(st.Var)
 				want, wok := m.store[st.Var]
@@ -451,7 +455,7 @@ func hasScriptStep(c c03Case) bool {
 
 func hasHostWrite(c c03Case) bool {
 	for _, s := range c.Steps {
-		if s.K == "host-set" || s.K == "poke-show" || s.K == "poke-set" || s.K == "poke-opts" {
+		if s.K == "host-set" || s.K == "host-clear" || s.K == "poke-show" || s.K == "poke-set" || s.K == "poke-opts" {
 			return true
 		}
 	}
@@ -483,6 +487,8 @@ func showC03Step(s c03Step) string {
 		v := *s.Val
 		v.fix()
 		return fmt.Sprintf("host writes $%s = %v", s.Var, v)
+	case "host-clear":
+		return "host clears its storer"
 	}
 	return "host reads $" + s.Var
 }
@@ -587,6 +593,10 @@ var c03Hist = Register(Prop[c03Case]{
 				v := genC03Value(t, rapid.SampledFrom([]byte{'n', 'b', 's'}).Draw(t, "type"))
 				c.Steps = append(c.Steps, c03Step{K: "host-set", Var: name, Val: &v})
 			default:
+				if rapid.IntRange(0, 4).Draw(t, "clear") == 0 {
+					c.Steps = append(c.Steps, c03Step{K: "host-clear", Var: name})
+					break
+				}
 				c.Steps = append(c.Steps, c03Step{K: "host-read", Var: name})
 			}
 		}
